@@ -13,8 +13,8 @@ PROP = {
          "quick": {"cases": 25000, "max_size": 60, "workers": 8},
          "thorough": {"cases": 600000, "max_size": 80, "workers": 12}},
         {"target": "c16_hsm_fuzz", "sub": "hsm",
-         "quick": {"runs": 20000, "max_len": 1000, "workers": 3},
-         "thorough": {"runs": 400000, "max_len": 1500, "workers": 4}},
+         "quick": {"runs": 20000, "max_len": 1000, "workers": 3, "unit_timeout": 60},
+         "thorough": {"runs": 400000, "max_len": 1500, "workers": 4, "unit_timeout": 60}},
     ],
     "assumptions": [
         "run() is only called with event ids >= 1 (id 0 is documented as 'any event, only for addRoute/addEvent')",
